@@ -290,6 +290,8 @@ func Execute(s Script) Result {
 		var outc <-chan []int
 		var release func()
 		var stop func()
+		cancelled := make(chan struct{})
+		var jcancel context.CancelFunc
 		switch s.Kind {
 		case "v2join":
 			in := make(chan int, s.InCap)
@@ -340,7 +342,10 @@ func Execute(s Script) Result {
 				to = 40 * time.Millisecond
 			}
 			var rel chan struct{}
-			opts := v1join.Opts[int]{Ctx: ctx, Input: in, JoinSize: s.J, Timeout: to}
+			jctx, jc := context.WithCancel(ctx)
+			jcancel = jc
+			defer jc()
+			opts := v1join.Opts[int]{Ctx: jctx, Input: in, JoinSize: s.J, Timeout: to}
 			if s.NoCopy {
 				rel = make(chan struct{})
 				opts.Released = rel
@@ -354,6 +359,7 @@ func Execute(s Script) Result {
 			release = func() {
 				select {
 				case rel <- struct{}{}:
+				case <-cancelled:
 				case <-ctx.Done():
 				}
 			}
@@ -372,6 +378,25 @@ func Execute(s Script) Result {
 				}
 				j.wait()
 				if s.NoCopy {
+					// the slice is the consumer's until it signals release: keep reading it
+					for r := 0; r < 8; r++ {
+						for _, v := range sl {
+							sum += v
+						}
+						time.Sleep(15 * time.Microsecond)
+					}
+					select {
+					case <-cancelled:
+						// cancelled while holding: no release is sent, the slice stays ours
+						for r := 0; r < 20; r++ {
+							for _, v := range sl {
+								sum += v
+							}
+							time.Sleep(20 * time.Microsecond)
+						}
+						return
+					default:
+					}
 					release()
 				} else {
 					kept = append(kept, sl)
@@ -383,6 +408,19 @@ func Execute(s Script) Result {
 				}
 			}
 		})
+		if jcancel != nil {
+			for _, c := range s.Ctl {
+				if c.K == "cancel" {
+					c := c
+					spawn(func(*jit) {
+						time.Sleep(time.Duration(c.AfterUs) * time.Microsecond)
+						close(cancelled)
+						jcancel()
+					})
+					break
+				}
+			}
+		}
 		if stop != nil {
 			for _, c := range s.Ctl {
 				if c.K == "stop" {
@@ -443,7 +481,7 @@ func callOrEnd(ctx context.Context, f func()) {
 func Gen(thorough bool) *rapid.Generator[Script] {
 	return rapid.Custom(func(t *rapid.T) Script {
 		var s Script
-		s.Kind = rapid.SampledFrom([]string{"v2prio", "v2simple", "v1prio", "v1prio", "v1simple", "v2join", "v2unite", "v1join", "limit"}).Draw(t, "kind")
+		s.Kind = rapid.SampledFrom([]string{"v2prio", "v2simple", "v1prio", "v1prio", "v1simple", "v2join", "v2unite", "v1join", "v1join", "limit"}).Draw(t, "kind")
 		np := rapid.IntRange(1, 3).Draw(t, "np")
 		s.Prios = []uint{3, 2, 1}[:np]
 		s.H = rapid.IntRange(6, 12).Draw(t, "h")
